@@ -100,6 +100,20 @@ EnvOf(sg, env) ==
              THEN Eval(sg[CHOOSE i \in FreshIdx(sg) : FreshName(i) = n].val, env)
         ELSE env[n] ]
 
+\* ---- a dict as an argument object --------------------------------------------------
+\* the set of its (key, value) pairs up to pymbolic's ==; a key the dict already has
+NormEntry(en) == [kf |-> en.kf, key |-> (IF en.kf = "name" THEN V(en.name) ELSE Norm(en.key)),
+                  val |-> Norm(en.val)]
+EntrySet(m) == { NormEntry(m[i]) : i \in 1..Len(m) }
+SameDict(seen, m) == Len(seen) = Len(m) /\ EntrySet(seen) = EntrySet(m)
+
+\* a key the dict already has (a caller does not write the same key twice in one call:
+\* which of the two would win is not part of the statement)
+HasKey(m, en) ==
+    IF en.kf = "name" THEN en.name \in BoundNames(m)
+    ELSE ExprHits(en.key, m) # {} \/ (en.key.t = "Var" /\ en.key.name \in BoundNames(m))
+Fits(m, kw) == \A i \in 1..Len(kw) : ~HasKey(m, kw[i])
+
 \* ---- slices -------------------------------------------------------------------
 IdxHasSlice(b) == b.t = "Slice" \/ (b.t = "Tup" /\ \E i \in 1..Len(b.c) : b.c[i].t = "Slice")
 RECURSIVE Lower(_)
